@@ -130,6 +130,8 @@ func Run(r *hx.Run, replay []hx.Case) {
 		for _, hc := range replay {
 			if hc.Kind == "cfg" && len(hc.Args) == 1 {
 				runCfg(r, pki, hc.ID, hc.Args[0])
+			} else if hc.Kind == "smtpc" {
+				runSMTPLevel(r, pki, hc.ID, hc.Args)
 			} else if hc.Kind == "seq" {
 				if steps, err := parseSeq(hc.Args); err != nil {
 					r.Fail(hc.ID, "bad-case", err.Error())
@@ -154,6 +156,9 @@ func Run(r *hx.Run, replay []hx.Case) {
 				break
 			}
 			runCfg(r, pki, r.NewID(), calls)
+		}
+		for _, hc := range smtpLevelCases() {
+			runSMTPLevel(r, pki, r.NewID(), hc.Args)
 		}
 		dseq := seqCases()
 		r.Notes["dial_sequences"] = len(dseq)
